@@ -506,6 +506,9 @@ def to_int(x, constants):
         return int(x)
     except ValueError:
         val = constants.get(x)
+        if isinstance(val, six.string_types):
+            # the constants table also maps typedef names to type names
+            raise calc.ParseError("'%s' names a type, not a numeric constant" % x)
         return val if val is not None else calc.eval(x, constants)
 
 
